@@ -331,7 +331,9 @@ def rule_block_header(facts):
     nfil = (flags & 3) + 1
     # filter id in the decoder's table
     from rules import C18
-    g = pat.body_of(facts, "decode::xz::get_filter_id")
+    gl = [x for x in facts.bodies if x.kind in ("Fn", "AssocFn") and x.promoted is None and x.arg_count == 1 and
+          x.locals[1].ty.k == "uint" and C18.result_of(x, "FilterId")]
+    g = gl[0] if gl else None
     acc = C18.accept_set(g) if g is not None else None
     acc = {v for v, ok_ in acc[1].items() if ok_} if acc else None
     pos = 1
